@@ -33,6 +33,7 @@ import (
 	"github.com/evolbioinfo/goalign/align"
 	"github.com/evolbioinfo/goalign/io/fasta"
 	"github.com/evolbioinfo/goalign/io/phylip"
+	"github.com/evolbioinfo/goalign/io/utils"
 )
 
 type cliFront struct {
@@ -99,7 +100,7 @@ var multiOps = map[string]bool{"RemoveGapSites": true, "RemoveCharacterSites": t
 	"Compress": true, "Mask": true, "MaskOccurences": true, "MaskUnique": true, "SubAlign": true, "RefCoordinates": true,
 	"Replace": true, "AppendSeqIdentifier": true, "TrimSequences": true, "ShuffleSequences": true, "Swap": true,
 	"Recombine": true, "Mutate": true, "AddGaps": true, "Sample": true, "SelectSites": true, "RefSites": true,
-	"InversePositions": true, "Transpose": true, "CodonAlign": true}
+	"InversePositions": true, "Transpose": true, "CodonAlign": true, "InverseCoordinates": true}
 
 type sideFile struct {
 	path  string
@@ -170,16 +171,29 @@ func sameAlign(a, b align.Alignment) bool {
 	return same
 }
 
-func dropLines(path string, n int) {
-	b, err := os.ReadFile(path)
+// side files of a two-alignment run: the first lines belong to the first alignment and are not the receiver's
+var dropFirst = map[string]int{}
+
+func dropLines(path string, n int) { dropFirst[path] = n }
+
+// readSide reads a side file (plain, .gz or .xz by its name) without the lines of the first alignment.
+func readSide(path string) (string, bool) {
+	n := dropFirst[path]
+	delete(dropFirst, path)
+	cl, rd, err := utils.GetReader(path)
 	if err != nil {
-		return
+		return "", false
+	}
+	b, err := io.ReadAll(rd)
+	cl.Close()
+	if err != nil {
+		return "", false
 	}
 	lines := strings.SplitAfter(string(b), "\n")
 	if n > len(lines) {
 		n = len(lines)
 	}
-	os.WriteFile(path, []byte(strings.Join(lines[n:], "")), 0o644)
+	return strings.Join(lines[n:], ""), true
 }
 
 var reStart = regexp.MustCompile(`number of start [^=]*=(-?\d+)`)
@@ -199,8 +213,8 @@ func printable(b []byte) bool {
 }
 
 func readInts(path string) ([]int, bool) {
-	b, err := os.ReadFile(path)
-	if err != nil {
+	b, ok := readSide(path)
+	if !ok {
 		return nil, false
 	}
 	out := []int{}
@@ -234,7 +248,9 @@ func (c *cliFront) plan(h *heapRun, o *obj, st Step) (*cliCall, string) {
 		if q == 0 || p < 0 || p > q {
 			return nil, "cutoff" // the flag is a float in [0,1]
 		}
-		kept, rm := filepath.Join(c.dir, "kept"), filepath.Join(c.dir, "rm")
+		// (the side files are written compressed one time in three each: they must be complete and closed too)
+		kept := filepath.Join(c.dir, "kept"+[]string{"", ".gz", ""}[(p+q+len(o.sb.AlphabetCharacters()))%3])
+		rm := filepath.Join(c.dir, "rm"+[]string{"", "", ".xz"}[(p+q+o.sb.NbSequences())%3])
 		os.Remove(kept)
 		os.Remove(rm)
 		argv := []string{"clean", "sites", "-c", fstr(afrac(a, "p", "q")), "--positions", kept, "--positions-rm", rm}
@@ -273,8 +289,14 @@ func (c *cliFront) plan(h *heapRun, o *obj, st Step) (*cliCall, string) {
 			m1, m2 := reStart.FindStringSubmatch(stderr), reEnd.FindStringSubmatch(stderr)
 			k, ok1 := readInts(kept)
 			r, ok2 := readInts(rm)
-			if m1 == nil || m2 == nil || !ok1 || !ok2 {
+			if m1 == nil || m2 == nil {
 				return false
+			}
+			if !ok1 { // a side file that cannot be read back (truncated compressed stream) reports nothing: logged as such
+				k = []int{-1}
+			}
+			if !ok2 {
+				r = []int{-1}
 			}
 			f, _ := strconv.Atoi(m1[1])
 			l, _ := strconv.Atoi(m2[1])
@@ -847,6 +869,9 @@ func (c *cliFront) plan(h *heapRun, o *obj, st Step) (*cliCall, string) {
 		if !ok || !printable(ref) || !needsAlign() {
 			return nil, "code"
 		}
+		if ai(a, "frame") < 0 {
+			return &cliCall{argv: []string{"translate", "--phase=" + strconv.Itoa(ai(a, "frame")), "--genetic-code", code, "--ref-seq=" + string(ref)}}, ""
+		}
 		return &cliCall{argv: []string{"translate", "--phase", strconv.Itoa(ai(a, "frame")), "--genetic-code", code, "--ref-seq=" + string(ref)}}, ""
 	case "CodonAlign":
 		// the nucleotide sequences go through a second FASTA file, read by the command with automatic alphabet detection
@@ -887,8 +912,8 @@ func (c *cliFront) plan(h *heapRun, o *obj, st Step) (*cliCall, string) {
 			argv = append(argv, "--n-as-gap")
 		}
 		return &cliCall{argv: argv, side: []sideFile{{logf, func(out1, decoy align.Alignment) int { return out1.NbSequences() }}}, ret: func(stdout, stderr string, ret map[string]interface{}) bool {
-			b, err := os.ReadFile(logf)
-			if err != nil {
+			b, ok := readSide(logf)
+			if !ok {
 				return false
 			}
 			groups := [][][]int{}
@@ -1018,6 +1043,12 @@ func (c *cliFront) plan(h *heapRun, o *obj, st Step) (*cliCall, string) {
 			argv = append(argv, "--reverse")
 		}
 		return &cliCall{argv: argv}, ""
+	case "InverseCoordinates":
+		// `subseq --reverse`: everything but the window (the blocks of InverseCoordinates, extracted and concatenated)
+		if !needsAlign() {
+			return nil, "bag"
+		}
+		return &cliCall{argv: []string{"subseq", "--reverse", "--start=" + strconv.Itoa(ai(a, "start")), "--length=" + strconv.Itoa(ai(a, "len"))}}, ""
 	case "SubAlign":
 		if !needsAlign() {
 			return nil, "bag"
